@@ -497,6 +497,18 @@ int main ()
     // every draw is made exactly once: the number of draws equals the larger request count
     if (co.k != std::max (na, nb)) bad++;
     O.put ((double) bad); };
+  // the same pairing oracle for long schedules given as runs (A16384 B1 A2 ...): leads that build up in several stages, so that a
+  // queue grows, is partly consumed and grows again
+  OP("o.c08.pairingrle") {
+    struct counting : public epsic::covariant_coordinator { unsigned long k = 0; counting () : covariant_coordinator (0.0) {}
+      void get_modulation (double& a, double& b) { a = double(k); b = double(k) + 0.5; k++; }
+      double get_mod_mean (unsigned) const { return 1; } double get_mod_variance (unsigned) const { return 1; } } co;
+    epsic::mode ma, mb; epsic::modulated_mode* A_ = co.get_modulated_mode (0, &ma); epsic::modulated_mode* B_ = co.get_modulated_mode (1, &mb);
+    unsigned long na = 0, nb = 0; long bad = 0;
+    while (!A.done()) { std::string run = A.next(); char c = run[0]; unsigned long len = std::stoul (run.substr (1));
+      for (unsigned long i=0;i<len;i++) { if (c == 'A') { double v = A_->modulation(); if (v != double(na)) bad++; na++; } else { double v = B_->modulation(); if (v != double(nb) + 0.5) bad++; nb++; } } }
+    if (co.k != std::max (na, nb)) bad++;
+    O.put ((double) bad); };
   // oracle (history): a factor is requested from one mode while the other mode does not exist yet (the request must fail
   // without consuming or delivering anything), then the other mode is created and the interleaving continues: the pairing is
   // that of a coordinator on which nothing happened before
